@@ -53,11 +53,11 @@ type rv struct {
 	M map[string]rv
 }
 
-func rInt(i int64) rv     { return rv{K: "int", I: i} }
-func rStr(s string) rv    { return rv{K: "str", S: s} }
-func rBool(b bool) rv     { return rv{K: "bool", B: b} }
-func rList(l ...rv) rv    { return rv{K: "list", L: append([]rv{}, l...)} }
-func rSet(l ...rv) rv     { return rv{K: "set", L: append([]rv{}, l...)} }
+func rInt(i int64) rv         { return rv{K: "int", I: i} }
+func rStr(s string) rv        { return rv{K: "str", S: s} }
+func rBool(b bool) rv         { return rv{K: "bool", B: b} }
+func rList(l ...rv) rv        { return rv{K: "list", L: append([]rv{}, l...)} }
+func rSet(l ...rv) rv         { return rv{K: "set", L: append([]rv{}, l...)} }
 func rMap(m map[string]rv) rv { return rv{K: "map", M: m} }
 
 func (v rv) canon() string {
@@ -414,10 +414,10 @@ func ops(from []ex) []ex {
 
 type c10View struct {
 	Label string   `json:"label"`
-	Src   string   `json:"src"`   // full sysl source
-	Outs  []string `json:"outs"`  // output names in order
-	Want  []string `json:"want"`  // canonical expected values
-	Args  []string `json:"args"`  // argument values (p: int, q: string)
+	Src   string   `json:"src"`  // full sysl source
+	Outs  []string `json:"outs"` // output names in order
+	Want  []string `json:"want"` // canonical expected values
+	Args  []string `json:"args"` // argument values (p: int, q: string)
 	NonT  bool     `json:"nont"`
 }
 
